@@ -108,11 +108,45 @@ fn transport(key: &libp2p_identity::Keypair) -> Boxed<(PeerId, StreamMuxerBox)> 
         .boxed()
 }
 
+/// A toy non-identity `DataTransform`: with `tag` set, a tag byte is prefixed on the way out and
+/// stripped (and required) on the way in; without it, the identity.
+#[derive(Clone, Default)]
+struct TagTransform {
+    tag: bool,
+}
+
+const TAG: u8 = 0xA7;
+
+impl gs::DataTransform for TagTransform {
+    fn inbound_transform(&self, raw: gs::RawMessage) -> Result<gs::Message, std::io::Error> {
+        let mut data = raw.data;
+        if self.tag {
+            if data.first() != Some(&TAG) {
+                return Err(std::io::Error::new(std::io::ErrorKind::InvalidData, "missing tag"));
+            }
+            data.remove(0);
+        }
+        Ok(gs::Message { source: raw.source, data, sequence_number: raw.sequence_number, topic: raw.topic })
+    }
+
+    fn outbound_transform(&self, _topic: &gs::TopicHash, mut data: Vec<u8>) -> Result<Vec<u8>, std::io::Error> {
+        if self.tag {
+            data.insert(0, TAG);
+        }
+        Ok(data)
+    }
+}
+
+type Beh = gs::Behaviour<TagTransform>;
+
 #[derive(Clone, Debug)]
 struct Params {
     n: usize,
     flood: bool,
-    anon: bool,
+    /// message authenticity: 's' signed, 'a' anonymous, 'r' random author
+    auth: char,
+    /// non-identity DataTransform (tag byte prefixed outbound, stripped inbound)
+    xform: bool,
     /// (mesh_n, mesh_n_low, mesh_n_high, mesh_outbound_min)
     mesh: (usize, usize, usize, usize),
     /// subscribe before the connections are made (meshes then form in heartbeats) or after
@@ -155,7 +189,7 @@ enum Entry {
 
 struct World {
     p: Params,
-    swarms: Vec<Swarm<gs::Behaviour>>,
+    swarms: Vec<Swarm<Beh>>,
     idx: HashMap<PeerId, usize>,
     flag: Arc<Flag>,
     waker: Waker,
@@ -164,6 +198,8 @@ struct World {
     mids: HashMap<gs::MessageId, usize>,
     /// per message: publisher, nodes delivered to (with multiplicity)
     msgs: Vec<(usize, Vec<usize>)>,
+    /// per message: the id `publish()` returned, and how many `Event::Message`s carried another id
+    ids: Vec<(Option<gs::MessageId>, usize)>,
     /// unknown message ids seen in taps (should stay 0)
     strays: usize,
     /// the network did not become quiescent
@@ -193,18 +229,26 @@ impl World {
                 .mesh_n_low(p.mesh.1)
                 .mesh_n_high(p.mesh.2)
                 .mesh_outbound_min(p.mesh.3);
-            let auth = if p.anon {
-                b.validation_mode(gs::ValidationMode::Anonymous);
-                b.message_id_fn(|m: &gs::Message| gs::MessageId::from(m.data.clone()));
-                gs::MessageAuthenticity::Anonymous
-            } else {
-                gs::MessageAuthenticity::Signed(key.clone())
+            let auth = match p.auth {
+                'a' => {
+                    b.validation_mode(gs::ValidationMode::Anonymous);
+                    // content-addressed id over the UN-transformed data (what `publish` and
+                    // `handle_received_message` both hand to the id function)
+                    b.message_id_fn(|m: &gs::Message| gs::MessageId::from(m.data.clone()));
+                    gs::MessageAuthenticity::Anonymous
+                }
+                'r' => {
+                    b.validation_mode(gs::ValidationMode::None);
+                    b.message_id_fn(|m: &gs::Message| gs::MessageId::from(m.data.clone()));
+                    gs::MessageAuthenticity::RandomAuthor
+                }
+                _ => gs::MessageAuthenticity::Signed(key.clone()),
             };
             if p.valid.contains(&i) {
                 b.validate_messages();
             }
             let cfg = b.build().expect("gossipsub config");
-            let mut beh = gs::Behaviour::new(auth, cfg).expect("behaviour");
+            let mut beh: Beh = gs::Behaviour::new_with_transform(auth, cfg, TagTransform { tag: p.xform }).expect("behaviour");
             if p.score {
                 beh.with_peer_score(gs::PeerScoreParams::default(), gs::PeerScoreThresholds::default())
                     .expect("peer score");
@@ -228,6 +272,7 @@ impl World {
             log: vec![],
             mids: HashMap::new(),
             msgs: vec![],
+            ids: vec![],
             strays: 0,
             stalled: false,
             pending: vec![],
@@ -346,6 +391,9 @@ impl World {
                     let (u, mid) = (self.node_of(&propagation_source), self.mid_of(&message_id));
                     self.log.push(Entry::Deliver { v: i, u, mid });
                     if mid < self.msgs.len() {
+                        if self.ids[mid].0.as_ref() != Some(&message_id) {
+                            self.ids[mid].1 += 1;
+                        }
                         self.msgs[mid].1.push(i);
                         if self.p.valid.contains(&i) {
                             self.pending.push(Pending { v: i, mid, id: message_id, src: propagation_source, dups: 0 });
@@ -496,6 +544,8 @@ struct Runner {
     fwd: Vec<Vec<usize>>,
     nontrivial: bool,
     dups: usize,
+    /// copies that travelled back to the publisher of their message
+    back: usize,
 }
 
 impl Runner {
@@ -534,7 +584,7 @@ impl Runner {
         let mid = self.w.msgs.len();
         let data = format!("c27 message {mid} of case seed {}", self.w.p.seed).into_bytes();
         let topic = self.w.topic.clone();
-        let r = self.w.swarms[s].behaviour_mut().publish(topic, data);
+        let r = self.w.swarms[s].behaviour_mut().publish(topic, data.clone());
         let id = match r {
             Ok(id) => id,
             Err(e) => {
@@ -544,11 +594,18 @@ impl Runner {
                 self.op(format!("pub {mid} {s} - {mode}"), format!("err:{k}"));
                 // keep numbering consistent
                 self.w.msgs.push((s, vec![]));
+                self.w.ids.push((None, 0));
                 return;
             }
         };
-        self.w.mids.insert(id, mid);
+        if self.w.p.auth != 's' {
+            // the id every other node will compute (content-addressed over the un-transformed
+            // data); on the unchanged code it IS the id `publish` returned
+            self.w.mids.insert(gs::MessageId::from(data.clone()), mid);
+        }
+        self.w.mids.insert(id.clone(), mid);
         self.w.msgs.push((s, vec![]));
+        self.w.ids.push((Some(id), 0));
         self.w.drain_taps(s);
         let mut recips: Vec<usize> = vec![];
         for e in std::mem::take(&mut self.w.log) {
@@ -579,6 +636,7 @@ impl Runner {
             self.emit_log(Some(mid));
             let dlv = self.sorted_dlv(mid);
             self.op(format!("quiet {mid}"), format!("dlv {}", hcore::list(&dlv)));
+            self.op_ids(mid);
             if reach_all && self.dups > before {
                 self.nontrivial = true;
             }
@@ -594,7 +652,15 @@ impl Runner {
             self.emit_log(None);
             let dlv = self.sorted_dlv(mid);
             self.op(format!("quietx {mid}"), format!("dlv {}", hcore::list(&dlv)));
+            self.op_ids(mid);
         }
+    }
+
+    /// every node's reported id of a delivered message = the id `publish()` returned?
+    fn op_ids(&mut self, mid: usize) {
+        let diff = self.w.ids[mid].1;
+        let imp = if diff == 0 { "same".to_string() } else { format!("differ:{diff}") };
+        self.op(format!("ids {mid}"), imp);
     }
 
     fn sorted_dlv(&self, mid: usize) -> Vec<usize> {
@@ -615,6 +681,9 @@ impl Runner {
             match log[k].clone() {
                 Entry::Recv { v, u, mid } => {
                     used[k] = true;
+                    if mid < self.w.msgs.len() && self.w.msgs[mid].0 == v {
+                        self.back += 1;
+                    }
                     // forwards: the contiguous sends of node v for this id right after the tap
                     let mut fwd = vec![];
                     let mut j = k + 1;
@@ -744,14 +813,14 @@ fn gen_params(rng: &mut Rng, class: &str, seed: u64) -> Params {
     let adj_class = if class.starts_with("valid") && rng.bool() { "dense" } else { class };
     let adj = gen_adj(rng, n, adj_class);
     let mesh = match (class, rng.below(3)) {
-        ("sparse", 0) => (2, 1, 3, 0),
-        ("sparse", 1) => (2, 2, 2, 1),
-        ("sparse", _) => (3, 2, 4, 1),
+        ("sparse" | "xform", 0) => (2, 1, 3, 0),
+        ("sparse" | "xform", 1) => (2, 2, 2, 1),
+        ("sparse" | "xform", _) => (3, 2, 4, 1),
         (_, 0) => (4, 3, 6, 1),
         _ => (6, 5, 12, 2),
     };
     let mut explicit = vec![];
-    if class == "explicit" {
+    if class == "explicit" || (class == "xform" && rng.bool()) {
         for a in 0..n {
             for &b in &adj[a] {
                 if a < b && rng.chance(1, 4) {
@@ -765,9 +834,21 @@ fn gen_params(rng: &mut Rng, class: &str, seed: u64) -> Params {
         flood: match class {
             "flood" | "dense" => true,
             "sparse" => false,
+            "xform" => rng.chance(1, 4),
             _ => rng.bool(),
         },
-        anon: class == "anon",
+        auth: match class {
+            "anon" => 'a',
+            "xform" => {
+                if rng.bool() {
+                    'a'
+                } else {
+                    'r'
+                }
+            }
+            _ => 's',
+        },
+        xform: class == "xform",
         mesh,
         sub_first: rng.bool(),
         hb_ms: 30 + rng.below(970),
@@ -798,10 +879,10 @@ fn header(p: &Params) -> String {
     let adj: Vec<Vec<usize>> = p.adj.iter().map(|s| s.iter().copied().collect()).collect();
     let exp: Vec<String> = p.explicit.iter().map(|(a, b)| format!("{a}-{b}")).collect();
     format!(
-        "n={} flood={} auth={} meshn={} mesh={}.{}.{}.{} subfirst={} hbms={} seed={} adj={} explicit={} val={} score={} policy={} rejects={}",
+        "n={} flood={} auth={} meshn={} mesh={}.{}.{}.{} subfirst={} hbms={} seed={} adj={} explicit={} val={} score={} policy={} rejects={} xform={}",
         p.n,
         p.flood as u8,
-        if p.anon { "a" } else { "s" },
+        p.auth,
         p.mesh.0,
         p.mesh.0,
         p.mesh.1,
@@ -815,7 +896,8 @@ fn header(p: &Params) -> String {
         hcore::list(&p.valid),
         p.score as u8,
         p.policy,
-        p.rejects as u8
+        p.rejects as u8,
+        p.xform as u8
     )
 }
 
@@ -850,7 +932,8 @@ fn parse_header(h: &[String]) -> Option<Params> {
     Some(Params {
         n,
         flood: kv(h, "flood")? == "1",
-        anon: kv(h, "auth")? == "a",
+        auth: kv(h, "auth")?.chars().next()?,
+        xform: kv(h, "xform") == Some("1"),
         mesh: (mesh[0], mesh[1], mesh[2], mesh[3]),
         sub_first: kv(h, "subfirst")? == "1",
         hb_ms: kv(h, "hbms")?.parse().ok()?,
@@ -899,7 +982,7 @@ fn run_case(out: &mut Out, idx: u64, class: &str, p: Params, script: &[Cmd]) {
     let mut rng = Rng::for_case(p.seed, idx ^ 0x27);
     let hdr = header(&p);
     let w = World::new(p, &mut rng);
-    let mut r = Runner { w, rng, lines: vec![], fwd: vec![], nontrivial: false, dups: 0 };
+    let mut r = Runner { w, rng, lines: vec![], fwd: vec![], nontrivial: false, dups: 0, back: 0 };
     // the forwarding sets may have moved since the last snapshot (a replayed, shrunk script may
     // have lost its `snap` lines): every publish is preceded by a fresh snapshot
     let mut dirty = true;
@@ -934,7 +1017,10 @@ fn run_case(out: &mut Out, idx: u64, class: &str, p: Params, script: &[Cmd]) {
     tap::disable();
     // a validation case counts only if at least one Accept came after a duplicate had arrived
     // while the message was awaiting it (the window of the strengthened no-echo clause was hit)
-    let nt = r.nontrivial && r.w.strays == 0 && (!class.starts_with("valid") || r.w.window_hits > 0);
+    let nt = r.nontrivial && r.w.strays == 0 && (!class.starts_with("valid") || r.w.window_hits > 0)
+        // a transform case counts only if a copy came back to its publisher (whose duplicate
+        // cache must recognise it under the id the network uses)
+        && (class != "xform" || r.back > 0);
     out.case(idx, &format!("{class} nt={} {hdr}", nt as u8));
     for l in &r.lines {
         out.raw(l);
@@ -946,8 +1032,10 @@ fn run_case(out: &mut Out, idx: u64, class: &str, p: Params, script: &[Cmd]) {
     out.end();
 }
 
-const CLASSES: [&str; 11] =
-    ["flood", "sparse", "mixed", "valid", "hbmix", "anon", "validmix", "explicit", "dense", "sparse", "valid"];
+const CLASSES: [&str; 13] = [
+    "flood", "sparse", "mixed", "valid", "hbmix", "anon", "xform", "validmix", "explicit", "dense", "sparse", "valid",
+    "xform",
+];
 
 pub fn run(args: &Args, out: &mut Out) {
     freeze_clock();
